@@ -178,6 +178,11 @@ impl TreeBuilderSimulator {
     }
 
     #[inline]
+    pub fn ns_stack_depth(&self) -> usize {
+        self.ns_stack.len()
+    }
+
+    #[inline]
     fn enter_ns(&mut self, ns: Namespace) -> TreeBuilderFeedback {
         self.ns_stack.push(ns);
         self.current_ns = ns;
